@@ -119,6 +119,10 @@ func (e *Enc) declare(name, sort string) {
 		return
 	}
 	e.declSet[name] = true
+	if strings.HasPrefix(sort, "@raw:") { // a (recursive) definition instead of a constant
+		e.decls = append(e.decls, strings.TrimPrefix(sort, "@raw:"))
+		return
+	}
 	e.decls = append(e.decls, fmt.Sprintf("(declare-const %s %s)", name, sort))
 }
 
@@ -896,6 +900,13 @@ func (e *Enc) loopVars(li *loopInfo, phiTerm func(*ssa.Phi) Term) map[string]Ter
 				vars[name] = t
 				break
 			}
+		}
+	}
+	// entry values of the parameters under the names <param>0 (parameters are mutable: inside a loop the
+	// plain name is the current value; Gobra's convention for the value at function entry is lo0, buf0, ...)
+	for name, t := range e.params {
+		if _, taken := vars[name+"0"]; !taken {
+			vars[name+"0"] = t
 		}
 	}
 	e.rebindRenamed(li, vars)
